@@ -20,7 +20,7 @@ Inductive rc :=
 | RC_typed_marker      (* quote ^^ inside the lexical form *)
 | RC_quote_regex       (* comment scan misses the quote at column 0, of "" and after \\ *)
 | RC_first_literal     (* comment scan protects only the first literal of a line *)
-| RC_comment_quote     (* whole-line comment containing a quote and a # *)
+| RC_comment_quote     (* quotes in comments are scanned as literal delimiters *)
 | RC_dir_unresolved    (* IRI of @prefix/@base never resolved against the base *)
 | RC_ws_in_literal     (* tab / repeated blank inside a lexical form (content altered; not a finding) *)
 | RC_long_number.      (* integer of more than 300 digits (float() overflow; not modelled) *)
@@ -146,9 +146,14 @@ Fixpoint lexes (ts : list atok) : list str :=
 (** blank-# in a lexical form; a tab before the # becomes a blank when the line is cleaned *)
 Definition hash_in (lex : str) : bool := contains (Str " #") lex || contains [ascii_of_nat 9; chr "#"] lex.
 
+(** a quote preceded by a backslash in a comment: on a line without string
+    literal the comment scan then finds no quote position at all *)
+Definition escaped_quote_in (cmt : option str) : bool :=
+  match cmt with Some t => contains (Str "\""") t | None => false end.
+
 Definition rc_line (l : line) : list rc :=
   match l with
-  | LDir _ _ _ _ => []
+  | LDir _ _ _ cmt => when (escaped_quote_in cmt) RC_comment_quote
   | LToks _ [] cmt =>
     match cmt with
     | Some t => when (contains (Str """") t && contains (Str "#") t) RC_comment_quote
@@ -159,7 +164,7 @@ Definition rc_line (l : line) : list rc :=
     let ls := lexes ts in
     if negb (is_some cmt) && negb (existsb hash_in ls) then []
     else match ls with
-         | [] => []
+         | [] => when (escaped_quote_in cmt) RC_comment_quote
          | l1 :: rest =>
            when (is_some (lex_of (fst tg)) || Nat.eqb (List.length l1) 0 ||
                  negb (last_ok (fun c => negb (Ascii.eqb c (chr "\"))) l1)) RC_quote_regex ++
